@@ -39,8 +39,13 @@ RULE = ("(a) exhaustive: every vertex sequence of length 3-4 (thorough: 3-5; plu
         "points, batches of 1e3..7e4 points). (c) .poly round trip of 1-6 filters (save, save_all, "
         "file object; cleared and pre-populated registries): name, axes, inverted, id, points "
         "bit-exact, classifications, copy()/copy(invert=True); ids and counter compared with the "
-        "model. distinct = distinct (polygon, points) inputs with at least one point level with a "
-        "vertex, or round-trip sets needing 17 digits.")
+        "model. (d) histories on one PolygonFilter object: 3-9 public mutations in random order "
+        "(points setter, inverted, axes, name, __setstate__ with edited/foreign state, pickle-style "
+        "state transfer into a used filter, copy, save+import_all into the live registry); after "
+        "every step filter() must equal a fresh filter built from the public state, the exact "
+        "oracle, the Lean model and the polygon read back from save()'s text. "
+        "distinct = distinct (polygon, points) inputs with at least one point level with a "
+        "vertex, round-trip sets needing 17 digits, histories containing a vertex-changing step.")
 TRUSTED_BASE = [
     "binary64 rounding of `(xj-xi)*(y-yi)/(yj-yi)+xi` in the compiled code: outside the model; "
     "query points within 2^-40*(|xi|+|xj-xi|) of an exact crossing abscissa are not compared "
@@ -784,6 +789,223 @@ def shrink_fileset(ctx, impl, fs):
     return small
 
 
+# ======================================================================================
+# histories on one PolygonFilter object
+# ======================================================================================
+def gen_history(rng):
+    """a random sequence of public mutations of one filter object"""
+    def poly():
+        return [list(v) for v in gen_polygon(rng)[2]]
+    h = {"init": {"axes": rng.sample(FEATS, 2), "points": poly(), "inverted": rng.random() < 0.4,
+                  "name": gen_name(rng, True)},
+         "pseed": rng.randrange(10**9), "ops": []}
+    for _ in range(rng.randint(3, 9)):
+        r = rng.random()
+        if r < 0.18:
+            op = {"op": "points", "points": poly(), "as": rng.choice(["list", "array", "tuple"])}
+        elif r < 0.28:
+            op = {"op": "inverted"}
+        elif r < 0.34:
+            op = {"op": "axes", "axes": rng.sample(FEATS, 2)}
+        elif r < 0.40:
+            op = {"op": "name", "name": gen_name(rng, True)}
+        elif r < 0.62:      # editing / session-restore interface
+            op = {"op": "setstate", "keep_points": rng.random() < 0.25}
+            if not op["keep_points"]:
+                op["points"] = poly()
+            if rng.random() < 0.5:
+                op["inverted"] = rng.random() < 0.5
+            if rng.random() < 0.3:
+                op["name"] = gen_name(rng, True)
+            if rng.random() < 0.3:
+                op["axes"] = rng.sample(FEATS, 2)
+        elif r < 0.70:
+            op = {"op": "copy", "invert": rng.random() < 0.5, "switch": rng.random() < 0.6}
+        elif r < 0.82:      # pickle-style: state of this filter put into another live object
+            op = {"op": "transfer", "points": poly(), "switch": rng.random() < 0.7}
+        elif r < 0.92:
+            op = {"op": "save_import", "switch": rng.random() < 0.6,
+                  "others": rng.randint(0, 2)}
+        else:
+            op = {"op": "receive", "points": poly(), "inverted": rng.random() < 0.5}
+        h["ops"].append(op)
+    return h
+
+
+def parse_poly_text(text):
+    """independent reader of what `save` wrote: list of dicts"""
+    out = []
+    for line in text.splitlines():
+        line = line.strip()
+        if line.startswith("["):
+            out.append({"uid": int(line.strip("[]").split()[1]), "points": [], "inverted": False})
+        elif "=" in line and out:
+            key, val = [t.strip() for t in line.split("=", 1)]
+            kl = key.lower()
+            if kl == "x axis":
+                out[-1]["xaxis"] = val
+            elif kl == "y axis":
+                out[-1]["yaxis"] = val
+            elif kl == "name":
+                out[-1]["name"] = val
+            elif kl == "inverted":
+                out[-1]["inverted"] = val == "True"
+            elif kl.startswith("point"):
+                out[-1]["points"].append([float(t) for t in val.split()])
+    return out
+
+
+def run_history(ctx, impl, h):
+    """returns (failures, observations for the model); a failure = (step index, what)"""
+    import io
+    PF = impl.PF
+    fails, obs = [], []
+    with warnings.catch_warnings():
+        warnings.simplefilter("ignore")
+        PF.clear_all_filters()
+        try:
+            i0 = h["init"]
+            pf = PF(axes=tuple(i0["axes"]), points=i0["points"], inverted=i0["inverted"],
+                    name=i0["name"])
+            prev_pts = []
+            for step, op in enumerate([{"op": "init"}] + h["ops"]):
+                kind = op["op"]
+                expect = None          # (points, inverted) the step must establish, if known
+                if kind == "points":
+                    conv = {"list": list, "array": lambda v: np.array(v, dtype=float),
+                            "tuple": lambda v: tuple(map(tuple, v))}[op["as"]]
+                    pf.points = conv(op["points"])
+                    expect = (op["points"], pf.inverted)
+                elif kind == "inverted":
+                    pf.inverted = not pf.inverted
+                elif kind == "axes":
+                    pf.axes = tuple(op["axes"])
+                elif kind == "name":
+                    pf.name = op["name"]
+                elif kind == "setstate":
+                    st = pf.__getstate__()
+                    if not op["keep_points"]:
+                        st["points"] = op["points"]
+                    for key, skey in (("inverted", "inverted"), ("name", "name")):
+                        if key in op:
+                            st[skey] = op[key]
+                    if "axes" in op:
+                        st["axis x"], st["axis y"] = op["axes"]
+                    pf.__setstate__(st)
+                    expect = (st["points"], st["inverted"])
+                elif kind == "copy":
+                    want_pts, want_inv = pf.points.tolist(), bool(pf.inverted) != op["invert"]
+                    q = pf.copy(invert=op["invert"])
+                    if op["switch"]:
+                        pf = q
+                        expect = (want_pts, want_inv)
+                elif kind == "transfer":
+                    q = PF(axes=("area_um", "deform"), points=op["points"])
+                    q.filter(np.array([0.0, 1.0]), np.array([0.0, 1.0]))     # q has been used
+                    st = json.loads(json.dumps(pf.__getstate__()))            # serialised state
+                    st["identifier"] = q.unique_id
+                    q.__setstate__(st)
+                    want = (pf.points.tolist(), bool(pf.inverted))
+                    if op["switch"]:
+                        pf = q
+                        expect = want
+                elif kind == "receive":     # this filter receives the state of another one
+                    q = PF(axes=("area_um", "deform"), points=op["points"], inverted=op["inverted"])
+                    st = q.__getstate__()
+                    st["identifier"] = pf.unique_id
+                    pf.__setstate__(st)
+                    expect = (op["points"], op["inverted"])
+                elif kind == "save_import":
+                    path = ctx.workdir / "hist.poly"
+                    if path.exists():
+                        path.unlink()
+                    for j in range(op["others"]):
+                        PF(axes=("area_um", "deform"), points=[[0, 0], [1, 0], [j + 1, 1]]).save(path)
+                    pf.save(path)
+                    want = (pf.points.tolist(), bool(pf.inverted))
+                    loaded = PF.import_all(path)          # ids are taken: every filter renumbered
+                    ids = [int(g.unique_id) for g in PF.instances]
+                    if len(set(ids)) != len(ids):
+                        fails.append((step, "import_all into the live registry produced a "
+                                            f"duplicate unique id: {ids}"))
+                    if op["switch"]:
+                        pf = loaded[-1]
+                        expect = want
+                # ------------- observe -------------
+                cur_pts = [tuple(map(float, v)) for v in np.array(pf.points, dtype=float)]
+                inv = bool(pf.inverted)
+                if expect is not None:
+                    ep = [tuple(map(float, v)) for v in expect[0]]
+                    if ep != cur_pts or bool(expect[1]) != inv:
+                        fails.append((step, f"after {kind}: the public state (points/inverted) is "
+                                            f"not the one that was set"))
+                rng = __import__("random").Random(f"{h['pseed']}-{step}")
+                scale = max((abs(c) for v in cur_pts for c in v), default=1.0) or 1.0
+                pts = gen_points(rng, cur_pts, scale, 10) + prev_pts[:8]
+                prev_pts = pts
+                a = np.array(pts, dtype=np.float64)
+                got = [bool(b) for b in pf.filter(a[:, 0].copy(), a[:, 1].copy())]
+                n_live = len(PF.instances)
+                fresh = PF(axes=tuple(pf.axes), points=pf.points, inverted=pf.inverted, name=pf.name)
+                ref = [bool(b) for b in fresh.filter(a[:, 0].copy(), a[:, 1].copy())]
+                same_hash = fresh.hash == pf.hash
+                del PF.instances[n_live:]
+                if got != ref:
+                    j = [x != y for x, y in zip(got, ref)].index(True)
+                    fails.append((step, f"after {kind}: filter() classifies point {pts[j]} as "
+                                        f"{got[j]}, a fresh filter with the same axes, points and "
+                                        f"inverted flag says {ref[j]} (stale internal state)"))
+                if not same_hash:
+                    fails.append((step, f"after {kind}: hash differs from the hash of a fresh filter "
+                                        f"with the same public state"))
+                skip = [near_py(cur_pts, q) for q in pts]
+                want = judge(cur_pts, pts, False, skip)
+                for j, w in enumerate(want):
+                    if w is not None and got[j] != (w != inv):
+                        fails.append((step, f"after {kind}: point {pts[j]} off the boundary of the "
+                                            f"current polygon classified {got[j]} (inverted={inv}), "
+                                            f"generic ray parity odd={w}"))
+                        break
+                sio = io.StringIO()
+                pf.save(sio, ret_fobj=True)
+                parsed = parse_poly_text(sio.getvalue())
+                if len(parsed) != 1:
+                    fails.append((step, f"save() wrote {len(parsed)} sections"))
+                else:
+                    t = parsed[0]
+                    tp = [tuple(v) for v in t["points"]]
+                    if tp != cur_pts or t["inverted"] != inv or t["uid"] != pf.unique_id \
+                            or t.get("name") != str(pf.name).strip() \
+                            or [t.get("xaxis"), t.get("yaxis")] != [str(x) for x in pf.axes]:
+                        fails.append((step, f"after {kind}: save() does not write the filter's "
+                                            f"public state"))
+                    else:
+                        n_live = len(PF.instances)
+                        g = PF(axes=(t["xaxis"], t["yaxis"]), points=t["points"],
+                               inverted=t["inverted"])
+                        sref = [bool(b) for b in g.filter(a[:, 0].copy(), a[:, 1].copy())]
+                        del PF.instances[n_live:]
+                        if sref != got:
+                            fails.append((step, f"after {kind}: the polygon written by save() "
+                                                f"classifies differently than filter()"))
+                obs.append({"poly": cur_pts, "inv": inv, "pts": pts, "bits": bits(got), "skip": skip,
+                            "kind": kind})
+        except BaseException as e:  # PolygonFilterError derives from BaseException
+            if isinstance(e, (KeyboardInterrupt, SystemExit)):
+                raise
+            fails.append((len(obs), f"history raises {type(e).__name__}: {e}"[:200]))
+        PF.clear_all_filters()
+    return fails, obs
+
+
+def shrink_history(ctx, impl, h):
+    def bad(ops):
+        return bool(run_history(ctx, impl, dict(h, ops=list(ops)))[0])
+    if len(h["ops"]) < 2:
+        return h
+    return dict(h, ops=common.ddmin(h["ops"], bad, max_tests=60))
+
+
 F15_CASE = {"filters": [{"axes": ["area_um", "deform"], "inverted": False, "name": "gate",
                          "uid": 0, "points": [[float(np.nextafter(0.1, 1)), 0.0], [1.0, 0.0],
                                               [1.0, 1.0], [float(np.nextafter(0.1, 1)), 1.0]]}],
@@ -948,6 +1170,28 @@ def run(ctx):
     if not persist_failed:
         probe_f15b(ctx, impl)
 
+    # ---------------- histories on one filter object ------------------------------------
+    hist_obs = []
+    hist_failed = False
+    for j in range(ctx.n(250, 4000)):
+        h = gen_history(ctx.rng)
+        fails, obs = run_history(ctx, impl, h)
+        hist_obs.append(obs)
+        ctx.case(("history", h), nontrivial=any(o["op"] in ("setstate", "transfer", "receive",
+                                                            "points") for o in h["ops"]),
+                 sample={"history": {"init": h["init"], "ops": h["ops"][:4]},
+                         "answers": [o["bits"] for o in obs[:5]]} if j == 0 else None)
+        ctx.stat("histories")
+        for o in h["ops"]:
+            ctx.stat("hist_op=" + o["op"])
+        ctx.stat("history_classifications", sum(len(o["pts"]) for o in obs))
+        if fails and not hist_failed:
+            hist_failed = True
+            small = shrink_history(ctx, impl, h)
+            f2 = run_history(ctx, impl, small)[0] or fails
+            ctx.violation("spec", f"history on one PolygonFilter, step {f2[0][0]}: {f2[0][1]}",
+                          dict(small, part="history"))
+
     # ---------------- model side: one driver run ---------------------------------------
     mirror_bad = []
     if ctx.lean_ok:
@@ -963,7 +1207,20 @@ def run(ctx):
             if obs is not None:
                 lines += fileset_lines(obs)
             fspans.append((a, len(lines)))
+        hspans = []
+        for obs in hist_obs:
+            for o in obs:
+                hspans.append((len(lines), o))
+                lines.append("poly " + " ".join(f"{rat(x)} {rat(y)}" for x, y in o["poly"]))
+                lines.append(f"pts {1 if o['inv'] else 0} " +
+                             " ".join(f"{rat(x)} {rat(y)}" for x, y in o["pts"]))
         out = ctx.lean("C15", lines)
+        for a, o in hspans:
+            mb = out[a + 1].split(" ")[0]
+            d = [i for i in range(len(o["pts"])) if not o["skip"][i] and mb[i] != o["bits"][i]]
+            if d:
+                mirror_bad.append(("filter", {"poly": o["poly"], "pts": o["pts"], "exact": False},
+                                   d[0], o["bits"], mb))
         for c, (a, b), (skip, per_route) in zip(cases, spans, results):
             ans = out[a + 1].split(" ")
             if out[a] != f"ok {len(c['poly'])}" or len(ans) != 3:
@@ -986,7 +1243,7 @@ def run(ctx):
                                    out[b - 1][:300]))
         ctx.stat("model_lines", len(lines))
 
-    if mirror_bad and not (spec_failed or persist_failed):
+    if mirror_bad and not (spec_failed or persist_failed or hist_failed):
         # correspondence broke without a property failure so far: extended search on the code
         found = False
         poly_side = any(m[0] != "import_all" for m in mirror_bad)
@@ -1055,6 +1312,11 @@ def replay(ctx, data):
     if rp.get("part") == "roundtrip":
         fails, _ = run_fileset(ctx, impl, rp, "replay")
         print("round trip failures:", fails)
+        return bool(fails)
+    if rp.get("part") == "history":
+        fails, obs = run_history(ctx, impl, rp)
+        print("answers per step:", [o["bits"] for o in obs])
+        print("history failures:", fails)
         return bool(fails)
     if rp.get("part") == "containment":
         poly = [tuple(v) for v in rp["poly"]]
